@@ -48,7 +48,13 @@ func (c *Conn) maybeSend(now time.Time) (next time.Time) {
 		// We may still send ACKs, even if congestion control or pacing limit sending.
 
 		// Prepare to write a datagram of at most maxSendSize bytes.
-		c.w.reset(c.loss.maxSendSize())
+		maxSize := c.loss.maxSendSize()
+		c.w.reset(maxSize)
+
+		// A datagram containing an ack-eliciting Initial packet is padded to
+		// paddedInitialDatagramSize bytes. When the anti-amplification limit
+		// leaves no room for that, send only Initial packets that need no padding.
+		canPadInitial := maxSize >= paddedInitialDatagramSize
 
 		dstConnID, ok := c.connIDState.dstConnID()
 		if !ok {
@@ -72,7 +78,12 @@ func (c *Conn) maybeSend(now time.Time) (next time.Time) {
 				extra:     c.retryToken,
 			}
 			c.w.startProtectedLongHeaderPacket(pnumMaxAcked, p)
-			c.appendFrames(now, initialSpace, pnum, limit)
+			initialLimit := limit
+			if !canPadInitial && initialLimit == ccOK {
+				// Only ACK frames, which are not ack-eliciting.
+				initialLimit = ccLimited
+			}
+			c.appendFrames(now, initialSpace, pnum, initialLimit)
 			if logPackets {
 				logSentPacket(c, packetTypeInitial, pnum, p.srcConnID, p.dstConnID, c.w.payload())
 			}
@@ -160,7 +171,7 @@ func (c *Conn) maybeSend(now time.Time) (next time.Time) {
 		}
 
 		if sentInitial != nil {
-			if pad {
+			if pad && canPadInitial {
 				// Pad out the datagram with zeros, coalescing the Initial
 				// packet with invalid packets that will be ignored by the peer.
 				// https://www.rfc-editor.org/rfc/rfc9000.html#section-14.1-1
